@@ -7,6 +7,7 @@ CONSTANTS
   Walk = "recursive"
   Faults = FALSE
   Nested = FALSE
+  Shared = FALSE
 INIT Init
 NEXT Next
 INVARIANT VariantChoice
